@@ -227,7 +227,14 @@ fn base_problem(rng: &mut Rng, small: bool) -> (Problem, &'static str) {
         o.psd_max = 2;
     }
     match rng.usize(0, 9) {
-        0..=6 => (gen::planted_wellposed(rng, &o).problem, "feasible"),
+        0..=6 => {
+            // a fifth of the feasible problems have loose constraints (slacks of size 10..1000 at the planted point)
+            let mut pl = gen::planted_wellposed(rng, &o);
+            if rng.bool(0.2) {
+                crate::c01::loosen(&mut pl, rng);
+            }
+            (pl.problem, "feasible")
+        }
         7 | 8 => (gen::primal_infeasible(rng, &o).0, "primal_infeasible"),
         _ => (gen::dual_infeasible(rng, &o).0, "dual_infeasible"),
     }
@@ -279,6 +286,21 @@ fn w_variants(ctx: &mut Ctx) {
                 // consistency of the variant's own reported objective with the mapped-back point
                 let t = terms(&base, &a, &ps, &mp, bound);
                 if verdict_class(r.status) == 'S' {
+                    // the slack terms below charge residuals, not cone membership: a Solved run whose mapped-back
+                    // point is outside K x K* (e.g. a nonzero slack on an equality row) must not be argued away by them
+                    for (c, rg) in base.cones.iter().zip(vkit::cones::cone_ranges(&base.cones)) {
+                        if rg.is_empty() {
+                            continue;
+                        }
+                        let (ms, ss) = vkit::cones::margin(c, &mp.s[rg.clone()], false);
+                        let (mz, sz) = vkit::cones::margin(c, &mp.z[rg.clone()], true);
+                        let sall = mp.s.iter().fold(ss, |m, v| m.max(v.abs()));
+                        let zall = mp.z.iter().fold(sz, |m, v| m.max(v.abs()));
+                        if !(ms >= -1e-6 * sall.max(1.0) && mz >= -1e-6 * zall.max(1.0)) {
+                            ctx.violation("solved_point_outside_cone", "solved_point_outside_cone", wl, case, json!({"base": base.to_json(), "variant_tags": v.tags, "cone": vkit::cones::cone_name(c), "margin_s": ms, "margin_z": mz, "scale_s": sall, "scale_z": zall}));
+                            break;
+                        }
+                    }
                     let want = t.p.f();
                     let got = r.obj_val / v.cscale;
                     // magnitude of the terms that are summed (linear and quadratic): cancellation among them
@@ -315,10 +337,16 @@ fn w_variants(ctx: &mut Ctx) {
                     let all_blowup = runs.iter().filter(|(mp, _)| verdict_class(mp.status) != majority).all(|(mp, _)| mp.init_norm > 1e40 * data_scale);
                     // second recorded mechanism: objective scaled by >= 1e4 or <= 1e-4 while equilibration is OFF
                     let all_extreme = runs.iter().filter(|(mp, _)| verdict_class(mp.status) != majority).all(|(mp, _)| !mp.equilibrated && !(2e-4..=5e3).contains(&mp.cscale));
+                    // third recorded mechanism: equilibration ON, but the objective scale lies beyond what its cost
+                    // normalisation may compensate (the factor c is clipped to [equilibrate_min_scaling,
+                    // equilibrate_max_scaling] = [1e-4, 1e4]): scales 1e6 / 1e-6 stay 100-fold off
+                    let all_beyond_clip = runs.iter().filter(|(mp, _)| verdict_class(mp.status) != majority).all(|(mp, _)| !(2e-5..=5e4).contains(&mp.cscale));
                     let sig = if all_blowup {
                         "verdict_classes_differ:initial_point_blowup"
                     } else if all_extreme {
                         "verdict_classes_differ:extreme_objective_scale_without_equilibration"
+                    } else if all_beyond_clip {
+                        "verdict_classes_differ:objective_scale_beyond_equilibration_clip"
                     } else {
                         "verdict_classes_differ"
                     };
